@@ -101,7 +101,8 @@ def check_projects(report: Report, tier: str) -> dict:
     lib_lists: List[Optional[List[str]]] = [None]
     for k in range(0, 4):
         lib_lists += [list(t) for t in itertools.product(libs_alpha, repeat=k)]
-    sources = ["void setup() {}\nvoid loop() {}\n", "// héllo ✓ 日本\nvoid setup(){}\n", "line1\r\nline2\r\n", "", "x" * 100_000, "tab\there\n\n\n"]
+    sources = ["// e\u0301 \u2126 \u212b \u212a \u1100\u1161 a\u0323\u0307 a\u0307\u0323 \ufb01 \u00a0 \ufeff \u2028 x\n", "\ufeffvoid setup() {}\n", "caf\u00e9 cafe\u0301\n",
+               "void setup() {}\nvoid loop() {}\n", "// héllo ✓ 日本\nvoid setup(){}\n", "line1\r\nline2\r\n", "", "x" * 100_000, "tab\there\n\n\n"]
     base = Path(tempfile.mkdtemp(prefix="c13-", dir=str(ROOT / "build")))
     n = 0
     try:
